@@ -183,6 +183,9 @@ func calculateDiscounts(lines []*Discount, cur currency.Code, sum num.Amount, rr
 		return
 	}
 	for i, l := range lines {
+		if l == nil {
+			continue
+		}
 		l.Index = i + 1
 		if l.Percent != nil && !l.Percent.IsZero() {
 			base := sum
@@ -202,6 +205,9 @@ func calculateDiscountSum(discounts []*Discount, cur currency.Code) *num.Amount 
 	}
 	total := cur.Def().Zero()
 	for _, l := range discounts {
+		if l == nil {
+			continue
+		}
 		total = total.MatchPrecision(l.Amount)
 		total = total.Add(l.Amount)
 	}
@@ -219,6 +225,9 @@ func (m *Discount) round(cur currency.Code) {
 
 func roundDiscounts(lines []*Discount, cur currency.Code) {
 	for _, l := range lines {
+		if l == nil {
+			continue
+		}
 		l.round(cur)
 	}
 }
